@@ -20,6 +20,8 @@ for r in rep['results']:
         res = 'caught by ' + ', '.join(r['caught_by']) + (' (replay reproduces)' if r.get('replay_reproduces') else '')
     elif r['status'] == 'neutralised':
         res = 'no longer breaks the property (neutralised by a repair)'
+    elif r['status'] == 'missed' and meta.get('known_missed'):
+        res = 'not caught - not claimed (reason in meta.json)'
     else:
         res = r['status'].upper()
     rows.append((r['id'], meta.get('property') or ','.join(r.get('expected', [])), res, note))
